@@ -69,8 +69,10 @@ def make_hvar(rng, refseq, pos, kind, alphabet=BASES, allow_shiftable=False):
         if shiftable and not allow_shiftable:
             return None
         return HVar(pos, anchor, anchor + ins, kind, shiftable=shiftable)
-    if kind == "del":
-        L = rng.choice([1, 1, 2, 3, 5, 8])
+    if kind in ("del", "longdel"):
+        # "longdel": longer than the re-alignment overhang, so it can straddle a neighbour's window boundary
+        L = rng.choice([1, 1, 2, 3, 5, 8]) if kind == "del" else rng.choice([11, 12, 14, 17, 23])
+        kind = "del"
         ref = refseq[pos:pos + 1 + L]
         if pos + 2 + L >= n:
             return None
@@ -311,7 +313,8 @@ class C06Scenario:
         else:  # "close": neighbours 0..14 bases apart, listed or private
             gap = lambda: rng.choice([0, 1, 1, 2, 2, 3, 4, 6, 9, 14, 30])
             nv = rng.randrange(5, 16)
-            allv = place_variants(rng, self.ref, nv, kinds, gap, alphabet, allow_shiftable)
+            ks = tuple(kinds) + (("longdel",) if "del" in kinds and rng.random() < 0.5 else ())
+            allv = place_variants(rng, self.ref, nv, ks, gap, alphabet, allow_shiftable)
             listed, private = [], []
             for v in allv:
                 if rng.random() < 0.8:
